@@ -175,7 +175,7 @@ class E2E(Prop):
             ops += sc.get("pre", [])
             ops.append(cligen.call_op(sc["req"], typed=sc.get("typed", False), W=sc.get("W", "-")))
             m = dict(stage=0, proto=sc["proto"], slave=slave, req=mb.show_req(sc["req"]), svc=svc_token(sc["reply"]),
-                     typed=sc.get("typed", False), allcomp=sc.get("allcomp", False), first_slave=sc["slave"], nops=len(ops), npre=len(sc.get("pre", [])), pre_clean=sc.get("pre_clean", False))
+                     typed=sc.get("typed", False), allcomp=sc.get("allcomp", False), first_slave=sc["slave"], nops=len(ops), npre=len(sc.get("pre", [])), pre_clean=sc.get("pre_clean", False), pre_frames=sc.get("pre_frames"))
             cs.append(Case(cligen.cli_line(sc["proto"], sc["slave"], ops), m))
         # what a service is handed may borrow its payload; the owned copy it keeps (Request::into_owned, SlaveRequest::into_owned) is equal
         if self.id == "C01":
